@@ -157,7 +157,9 @@ class DashApp:
         def _on_exc(sender, exception, **extra):
             import traceback
             tb = traceback.extract_tb(exception.__traceback__)
-            where = f'{tb[-1].filename.split("/")[-1]}:{tb[-1].lineno}' if tb else ''
+            # innermost frame inside the repository (function name: stable across edits)
+            inner = [f for f in tb if '/dashlive/' in f.filename] or list(tb)
+            where = f'{inner[-1].filename.split("/")[-1]}:{inner[-1].name}' if inner else ''
             self.exceptions.append({'type': type(exception).__name__, 'msg': str(exception)[:200], 'where': where})
         self._on_exc = _on_exc     # keep a strong reference (signals hold weak ones)
         flask.got_request_exception.connect(_on_exc, app)
@@ -230,22 +232,28 @@ class DashApp:
             if only is not None:
                 stems = [s for s in stems if s in only]
             mfs = []
-            for stem in stems:
-                src = src_dir / f'{stem}.mp4'
+            for stem0 in stems:
+                src = src_dir / f'{stem0}.mp4'
+                # blob and media-file names are unique across the store: copies of a fixture
+                # under another directory are renamed <directory>_xx
+                stem = stem0 if directory == name else stem0.replace(name, directory, 1)
                 dst = dst_dir / f'{stem}.mp4'
                 if not dst.exists():
                     shutil.copyfile(src, dst)
-                js = src_dir / f'rep-{stem}.json'
+                js = src_dir / f'rep-{stem0}.json'
                 rep = None
                 if js.exists():
                     rep_js = json.loads(js.read_text())
                     if rep_js['version'] == Representation.VERSION:
+                        if stem != stem0:
+                            rep_js['id'] = stem
+                            rep_js['filename'] = f'{stem}.mp4'
                         rep = Representation(**rep_js)
                 if rep is None:
                     with src.open('rb') as f:
                         atoms = mp4.Mp4Atom.load(f)
                     rep = Representation.load(f'{stem}.mp4', atoms)
-                ctype = 'video' if '_v' in stem else ('audio' if '_a' in stem else 'text')
+                ctype = 'video' if '_v' in stem0 else ('audio' if '_a' in stem0 else 'text')
                 blob = models.Blob(
                     filename=f'{stem}.mp4',
                     created=REAL_DATETIME(2022, 9, 1, 12, 23, 0, tzinfo=UTC),
@@ -256,7 +264,7 @@ class DashApp:
                     encrypted=rep.encrypted, blob=blob)
                 mf.set_representation(rep)
                 mfs.append(mf)
-                if stream.timing_reference is None and '_v' in stem:
+                if stream.timing_reference is None and '_v' in stem0:
                     stream.timing_reference = mf.as_stream_timing_reference()
             models.db.session.add(stream)
             for mf in mfs:
